@@ -31,6 +31,7 @@ EXPLANATION = ("a: parse_rule_attributes assigns each RuleAttributes field under
                "track quote state; the rule-splitting regex must not end a rule at the first `}`. e: the salience capture group "
                "begins with an optional `-`.")
 FLOORS = {"attributes": 6, "condition_regexes": 3, "scanners": 8}
+EXPLANATION += ' f: the ConditionGroup constructors are plain wrappers (shared with C01.b). g: inventory of run-removing / rewriting / case-folding string operations (trim_*_matches, replace, to_lowercase, retain ...) in the GRL parser: each removes only layout, or its result is only compared (keyword match), or it is in the reviewed table with its reason; anything else changes the text the next parsing step sees.'
 
 GP = "parser::grl::GRLParser"
 OPS = "types::Operator"
